@@ -21,7 +21,7 @@ def mpcName : MPc → String
   | .p188 => "p188" | .p189 => "p189" | .p190 => "p190" | .p191 => "p191" | .p193 => "p193" | .p194 => "p194"
   | .p195 => "p195" | .p193x => "p193x" | .p197 => "p197" | .p198 => "p198" | .p199 => "p199" | .p201 => "p201"
   | .pdLock => "pdLock" | .p203 => "p203" | .p203w => "p203w" | .pdUnlock => "pdUnlock" | .m128 => "m128"
-  | .m132 => "m132" | .dead => "dead"
+  | .m132 => "m132" | .mExit => "mExit" | .dead => "dead"
 
 def ids (js : List Job) : String := "(" ++ " ".intercalate (js.map fun j => atomOfInt j.id) ++ ")"
 
